@@ -569,33 +569,51 @@ def list_content(fi: FuncInfo, receiver: str, limit=4000):
     """[(path condition, items, SymPath)]: what the list named `receiver` (a local name or `self.attr`) holds at the end of every
     feasible path, from its (re)binding and the append / extend / insert / += that follow.  Items as in items_of; a path on
     which the receiver is never bound starts with ('copy', <receiver>)."""
-    out = []
-    for sp in symex.func_sym_paths(fi, limit):
-        items = [('copy', ast.parse(receiver, mode='eval').body)]
-        for e in sp.events:
-            n = e.node
-            if isinstance(n, (ast.Assign, ast.AnnAssign)) and e.kind in ('assign', 'store'):
-                tg = n.targets if isinstance(n, ast.Assign) else [n.target]
-                if any(src(t) == receiver for t in tg):
-                    items = items_of(e.expr)
-            elif isinstance(n, ast.AugAssign) and src(n.target) == receiver and isinstance(n.op, ast.Add):
-                v = e.expr.right if isinstance(e.expr, ast.BinOp) and e.kind == 'assign' else e.expr
-                items = items + items_of(v)
-            elif isinstance(n, ast.Expr) and isinstance(n.value, ast.Call) and isinstance(n.value.func, ast.Attribute) \
-                    and src(n.value.func.value) == receiver and isinstance(e.expr, ast.Call):
-                m = n.value.func.attr
-                if m == 'append' and len(e.expr.args) == 1:
-                    items = items + [('one', e.expr.args[0])]
-                elif m == 'extend' and len(e.expr.args) == 1:
-                    items = items + items_of(e.expr.args[0])
-                elif m == 'insert' and len(e.expr.args) == 2 and isinstance(e.expr.args[0], ast.Constant) and e.expr.args[0].value == 0:
-                    items = [('one', e.expr.args[1])] + items
-                elif m in ('clear',):
-                    items = []
-                elif m in ('pop', 'remove', 'sort', 'reverse', 'insert'):
-                    items = items + [('unknown', e.expr)]
-        out.append((sp.condition(), items, sp))
-    return out
+    return [(sp.condition(), path_items(sp, receiver), sp) for sp in symex.func_sym_paths(fi, limit)]
+
+
+def path_items(sp, receiver: str):
+    """What the list named `receiver` holds at the end of one path (see list_content)."""
+    items = [('copy', ast.parse(receiver, mode='eval').body)]
+    in_loop = 0
+    for e in sp.events:
+        n = e.node
+        if isinstance(n, (ast.Assign, ast.AnnAssign)) and e.kind in ('assign', 'store'):
+            tg = n.targets if isinstance(n, ast.Assign) else [n.target]
+            if any(src(t) == receiver for t in tg):
+                items = items_of(e.expr)
+        elif isinstance(n, ast.AugAssign) and src(n.target) == receiver and isinstance(n.op, ast.Add):
+            v = e.expr.right if isinstance(e.expr, ast.BinOp) and e.kind == 'assign' else e.expr
+            items = items + items_of(v)
+        elif isinstance(n, ast.Expr) and isinstance(n.value, ast.Call) and isinstance(n.value.func, ast.Attribute) \
+                and src(n.value.func.value) == receiver and isinstance(e.expr, ast.Call):
+            m = n.value.func.attr
+            if m == 'append' and len(e.expr.args) == 1:
+                items = items + [('one', e.expr.args[0])]
+            elif m == 'extend' and len(e.expr.args) == 1:
+                items = items + items_of(e.expr.args[0])
+            elif m == 'insert' and len(e.expr.args) == 2 and isinstance(e.expr.args[0], ast.Constant) and e.expr.args[0].value == 0:
+                items = [('one', e.expr.args[1])] + items
+            elif m in ('clear',):
+                items = []
+            elif m in ('pop', 'remove', 'sort', 'reverse', 'insert'):
+                items = items + [('unknown', e.expr)]
+    return items
+
+
+def joined_text(sp, node):
+    """`''.join(parts)` where `parts` is a local list filled on the path `sp`, piece by piece: the concatenation `a + b + ...`
+    of the pieces (so that text_parts sees through it); any other node unchanged."""
+    if isinstance(node, ast.Call) and isinstance(node.func, ast.Attribute) and node.func.attr == 'join' and len(node.args) == 1 \
+            and isinstance(node.func.value, ast.Constant) and node.func.value.value == '':
+        arg = node.args[0]
+        items = path_items(sp, src(arg)) if isinstance(arg, ast.Name) else items_of(arg)
+        if items and all(k[0] == 'one' for k in items):
+            out = clone(items[0][1])
+            for k in items[1:]:
+                out = ast.BinOp(left=out, op=ast.Add(), right=clone(k[1]))
+            return out
+    return node
 
 
 RAISES = ('<raises>',)
